@@ -13,7 +13,7 @@ for n in $names; do
   if ! (cd $S/repo && patch -p1 -s --no-backup-if-mismatch < /verif/seeded/$n/patch.diff >/dev/null 2>&1); then echo "$n: patch does not apply"; rm -rf $S; continue; fi
   total=$((total+1))
   mkdir -p $S/v && cp /verif/known_findings.json $S/v/
-  out=$(timeout ${MUT_TIMEOUT:-1500} bin/gvc check --repo $S/repo --verif $S/v --property $prop 2>&1 | grep -E "VIOLATION|FAULT|LOAD ERROR|load errors|quick:" | head -4)
+  out=$(timeout ${MUT_TIMEOUT:-1500} bin/gvc check --repo $S/repo --verif $S/v --property $prop 2>&1 | grep -E "VIOLATION|FAULT|LOAD ERROR|load errors|quick:" | (head -40; cat >/dev/null))
   if ! echo "$out" | grep -q "quick:"; then echo "$n ($prop): ENGINE-ERROR  $(echo "$out" | head -2 | tr '\n' ' ')"; missed="$missed $n(error)"; rm -rf $S; continue; fi
   if echo "$out" | grep -q VIOLATION; then killed=$((killed+1)); echo "$n ($prop): KILLED  $(echo "$out" | grep -c VIOLATION) violation(s)"; else missed="$missed $n"; echo "$n ($prop): SURVIVED  $(echo "$out" | tail -1)"; fi
   rm -rf $S
